@@ -96,6 +96,16 @@ func (l *Location) Doc() *CRLSpec {
 	case "sibling":
 		c.Signer, c.SignerKey = l.w.Sib, nil
 		c.AutoAlg = true
+	case "indirect":
+		// an indirect CRL: it additionally lists, as the LAST entry, a serial of ANOTHER issuer (B) that happens to equal
+		// one of this location's never-listed serials. Refusing the list (critical extension not handled) or honouring
+		// certificateIssuer are both fine; revoking the issuer's own certificate with that serial is not.
+		other := l.w.B
+		if l.Issuer == l.w.B {
+			other = l.w.A
+		}
+		c.Indirect = other
+		c.Entries = append(append([]CRLEntrySpec(nil), c.Entries...), CRLEntrySpec{Serial: l.Never[0], Date: epoch.Add(-time.Hour), HasExts: true, ExtDER: CertificateIssuerExt(other)})
 	case "critext":
 		c.CritUnknown = true
 		if c.Version == 1 || c.NoExts {
